@@ -1812,7 +1812,7 @@ pub fn hzd_write(width: usize, v: u64) -> alloc::vec::Vec<u8> {
 
 /// Trace of `OnchainTxHandler::update_claims_view_from_matched_txn` calls on this thread (package
 /// layer differential, C06/C07): per call one `pre <conf> <cur> <pending> <claimable> <events>
-/// <locked> <txs>` line, one `mid <pending> <claimable> <events> <locked> <bump candidates>` line
+/// <locked> <txs> <destination script hex>` line, one `mid <pending> <claimable> <events> <locked> <bump candidates>` line
 /// (state after the matching / maturity / timer loops, before the bump loop), one `issued <id8>
 /// <new timer>` line per bump candidate `generate_claim` answered, and `end`. Read-only.
 pub mod pkgtrace {
